@@ -380,6 +380,8 @@ def ws_script_from_word(word: List[Any], texts: Dict[str, str], first: str, carr
             steps.append({"s": "ws", "op": "close", "code": None if code == 1005 else code})
         elif name == "ConnLost":
             steps.append({"s": "eof"})
+        elif name == "EarlyData":
+            steps.append({"s": "ws_early", "pid": 40, "len": 4})
         else:
             raise AssertionError(label)
         prev = target
@@ -401,9 +403,12 @@ def gen_ws_from_graph(tier: str, rng) -> Iterator[Dict[str, Any]]:
             continue  # the carrier refusing the handshake response cannot be provoked from outside any more
         words = graph_tests.edge_words(node, adj)
         if tier == "quick" and len(words) > 120:
-            words = rng.sample(words, 120)
+            # (the few words of the rarest action are not left to the sample)
+            rare = [w for w in words if any(lab.startswith("EarlyData") for lab, _ in w)]
+            words = rare + rng.sample([w for w in words if w not in rare], 120 - len(rare))
         for i, w in enumerate(words):
-            carrier = "h1" if (tier == "thorough" or i % 3) else "h2"
+            early = any(lab.startswith("EarlyData") for lab, _ in w)   # (driven on the HTTP/1.1 carrier only)
+            carrier = "h1" if (tier == "thorough" or i % 3 or early) else "h2"
             yield ws_script_from_word(w, texts, node, carrier, "tlc/WSock/graph-%s" % carrier)
-            if tier == "thorough" and i % 4 == 0:
+            if tier == "thorough" and i % 4 == 0 and not early:
                 yield ws_script_from_word(w, texts, node, "h2", "tlc/WSock/graph-h2")
